@@ -77,11 +77,22 @@ class Identifier(Node):
                 # parsed without a scope (a call site seen by the grammar):
                 # interpolations are resolved when the call is evaluated
                 return tokens
-            return [
-                scope.swap(t)
-                if (utility.is_variable(t) and not t in reserved.tokens) else t
-                for t in tokens
-            ]
+            def is_var(t):
+                return utility.is_variable(t) and not t in reserved.tokens
+
+            # a value may itself be a variable (`@a: @b;`): substitute until
+            # none is left, as for declaration values (an acyclic chain
+            # through every known variable needs one round per variable)
+            rounds = 0
+            while any(is_var(t) for t in tokens):
+                rounds += 1
+                if rounds > sum(
+                        len(level['__variables__']) for level in scope) + 1:
+                    raise SyntaxError('Recursive variable definition')
+                tokens = list(
+                    utility.flatten(
+                        [scope.swap(t) if is_var(t) else t for t in tokens]))
+            return tokens
 
         parsed = [
             list(utility.flatten(replace_variables(part, scope)))
